@@ -185,7 +185,7 @@ Next ==
           /\ cache' = [n \in ToSet(e.nodes) |-> InitFull.cache]
           /\ chain' = <<>> /\ approved' = {}
           /\ hist' = [n \in ToSet(e.nodes) |-> NoHist]
-     ELSE IF e.ev \in {"stable", "liveness_verdict"}
+     ELSE IF e.ev \in {"stable", "liveness_verdict", "specreplay_abort"}
      THEN /\ UNCHANGED <<hdr, obs, cache, chain, approved, hist>>
           \* C05: after stabilisation some view led by a live correct member ends in commit within the bound of timer
           \* rounds, and every live member that accepted that view's proposal commits it
